@@ -410,7 +410,6 @@ theorem payload_segment (v : Nat) (m : QRRef.Mode) (k : Nat) (hk : QRRef.countBi
     its ASCII bytes, with the level and version, for every version 1..40, level and mask. -/
 theorem qr_roundtrip_numeric (T : Tables) (hT : TablesConform T) (hint : Hint) (v : Nat) (h1 : 1 ≤ v) (h40 : v ≤ 40)
     (ec : QRRef.EC) (mask : Nat) (hm : mask < 8) (ds : List Nat) (hd : ∀ d ∈ ds, d < 10)
-    (hcount : ds.length < 2 ^ QRRef.countBits .numeric v)
     (hfit : QRRef.fitsBits v ec .numeric (QRRef.headerBits none false .numeric).length
       (QRRef.packNumeric ds).length = true) :
     decode T rsQR hint (refSymbol v ec mask
@@ -419,8 +418,16 @@ theorem qr_roundtrip_numeric (T : Tables) (hT : TablesConform T) (hint : Hint) (
         QRRef.dataCodewordsOf v ec (QRRef.headerBits none false .numeric) .numeric ds.length (QRRef.packNumeric ds),
         false⟩ := by
   have hk := (countBits_eq v).1
+  have hf : _ ≤ _ := of_decide_eq_true hfit
+  have hcount : ds.length < 2 ^ QRRef.countBits .numeric v := by
+    have hc := (cap_facts v h1 h40 ec).1
+    rw [packNumeric_length] at hf
+    generalize 2 ^ QRRef.countBits .numeric v = P at hc ⊢
+    split at hf
+    · omega
+    · split at hf <;> omega
   apply qr_roundtrip_bits T hT hint v h1 h40 ec mask hm
-  · rw [payload_length]; simpa [QRRef.fitsBits] using hfit
+  · rw [payload_length]; exact hf
   · intro tail ht
     rw [payload_segment v .numeric 0 hk, packNumeric_eq]
     exact parse_numeric_stream T.eci v hint ds hd (by rw [← hk]; exact hcount) tail ht
@@ -428,7 +435,6 @@ theorem qr_roundtrip_numeric (T : Tables) (hT : TablesConform T) (hint : Hint) (
 /-- **`qr_roundtrip`, alphanumeric mode** (7.4.4): character values 0..44 come back as the characters of Table 5 -/
 theorem qr_roundtrip_alnum (T : Tables) (hT : TablesConform T) (hint : Hint) (v : Nat) (h1 : 1 ≤ v) (h40 : v ≤ 40)
     (ec : QRRef.EC) (mask : Nat) (hm : mask < 8) (cs : List Nat) (hc : ∀ c ∈ cs, c < 45)
-    (hcount : cs.length < 2 ^ QRRef.countBits .alnum v)
     (hfit : QRRef.fitsBits v ec .alnum (QRRef.headerBits none false .alnum).length
       (QRRef.packAlnum cs).length = true) :
     decode T rsQR hint (refSymbol v ec mask
@@ -437,8 +443,14 @@ theorem qr_roundtrip_alnum (T : Tables) (hT : TablesConform T) (hint : Hint) (v 
         QRRef.dataCodewordsOf v ec (QRRef.headerBits none false .alnum) .alnum cs.length (QRRef.packAlnum cs),
         false⟩ := by
   have hk := (countBits_eq v).2.1
+  have hf : _ ≤ _ := of_decide_eq_true hfit
+  have hcount : cs.length < 2 ^ QRRef.countBits .alnum v := by
+    have hc := (cap_facts v h1 h40 ec).2.1
+    rw [packAlnum_length] at hf
+    generalize 2 ^ QRRef.countBits .alnum v = P at hc ⊢
+    omega
   apply qr_roundtrip_bits T hT hint v h1 h40 ec mask hm
-  · rw [payload_length]; simpa [QRRef.fitsBits] using hfit
+  · rw [payload_length]; exact hf
   · intro tail ht
     rw [payload_segment v .alnum 1 hk, packAlnum_eq]
     exact parse_alnum_stream T.eci v hint cs hc (by rw [← hk]; exact hcount) tail ht
@@ -447,7 +459,6 @@ theorem qr_roundtrip_alnum (T : Tables) (hT : TablesConform T) (hint : Hint) (v 
     character set `guessCharset` picks for them (hint honoured, UTF-8 detected: C15) -/
 theorem qr_roundtrip_byte (T : Tables) (hT : TablesConform T) (hint : Hint) (v : Nat) (h1 : 1 ≤ v) (h40 : v ≤ 40)
     (ec : QRRef.EC) (mask : Nat) (hm : mask < 8) (bs : List Nat) (hb : ∀ b ∈ bs, b < 256)
-    (hcount : bs.length < 2 ^ QRRef.countBits .byte v)
     (charset : Charset) (hcs : guessCharset T.eci bs hint = .ok charset)
     (hfit : QRRef.fitsBits v ec .byte (QRRef.headerBits none false .byte).length
       (QRRef.bitsOfBytes bs).length = true) :
@@ -457,8 +468,14 @@ theorem qr_roundtrip_byte (T : Tables) (hT : TablesConform T) (hint : Hint) (v :
         QRRef.dataCodewordsOf v ec (QRRef.headerBits none false .byte) .byte bs.length (QRRef.bitsOfBytes bs),
         false⟩ := by
   have hk := (countBits_eq v).2.2.1
+  have hf : _ ≤ _ := of_decide_eq_true hfit
+  have hcount : bs.length < 2 ^ QRRef.countBits .byte v := by
+    have hc := (cap_facts v h1 h40 ec).2.2.1
+    rw [QRRef.bitsOfBytes_length] at hf
+    generalize 2 ^ QRRef.countBits .byte v = P at hc ⊢
+    omega
   apply qr_roundtrip_bits T hT hint v h1 h40 ec mask hm
-  · rw [payload_length]; simpa [QRRef.fitsBits] using hfit
+  · rw [payload_length]; exact hf
   · intro tail ht
     rw [payload_segment v .byte 2 hk, bitsOfBytes_eq]
     exact parse_byte_stream T.eci v hint bs hb (by rw [← hk]; exact hcount) charset hcs tail ht
@@ -467,7 +484,6 @@ theorem qr_roundtrip_byte (T : Tables) (hT : TablesConform T) (hint : Hint) (v :
     their byte pairs, labelled Shift_JIS -/
 theorem qr_roundtrip_kanji (T : Tables) (hT : TablesConform T) (hint : Hint) (v : Nat) (h1 : 1 ≤ v) (h40 : v ≤ 40)
     (ec : QRRef.EC) (mask : Nat) (hm : mask < 8) (ps : List (Nat × Nat)) (hp : ∀ p ∈ ps, kanjiPairOK p)
-    (hcount : ps.length < 2 ^ QRRef.countBits .kanji v)
     (hfit : QRRef.fitsBits v ec .kanji (QRRef.headerBits none false .kanji).length
       (QRPack.packKanji ps).length = true) :
     QRRef.encodeData .kanji (ps.flatMap (fun p => [p.1, p.2])) = some (ps.length, QRPack.packKanji ps) ∧
@@ -477,14 +493,91 @@ theorem qr_roundtrip_kanji (T : Tables) (hT : TablesConform T) (hint : Hint) (v 
         QRRef.dataCodewordsOf v ec (QRRef.headerBits none false .kanji) .kanji ps.length (QRPack.packKanji ps),
         false⟩ := by
   have hk := (countBits_eq v).2.2.2
+  have hf : _ ≤ _ := of_decide_eq_true hfit
+  have hcount : ps.length < 2 ^ QRRef.countBits .kanji v := by
+    have hc := (cap_facts v h1 h40 ec).2.2.2
+    rw [packKanji_length] at hf
+    generalize 2 ^ QRRef.countBits .kanji v = P at hc ⊢
+    omega
   constructor
   · unfold QRRef.encodeData
     simp only [QRComp.packKanji_eq ps hp, Option.map_some]
     rw [flatMap_pair_length]; simp
   · apply qr_roundtrip_bits T hT hint v h1 h40 ec mask hm
-    · rw [payload_length]; simpa [QRRef.fitsBits] using hfit
+    · rw [payload_length]; exact hf
     · intro tail ht
       rw [payload_segment v .kanji 3 hk]
       exact parse_kanji_stream T.eci v hint ps hp (by rw [← hk]; exact hcount) tail ht
+
+/-! ### byte mode with an ECI header -/
+
+theorem eciDesignator_eq (val : Nat) :
+    QRRef.eciDesignator val = encodeECIValue (if val < 128 then 1 else if val < 16384 then 2 else 3) val := by
+  unfold QRRef.eciDesignator encodeECIValue
+  by_cases h1 : val < 128
+  · simp [h1, toBitsBE_eq_natToBits]
+  · by_cases h2 : val < 16384
+    · simp [h1, h2, toBitsBE_eq_natToBits]
+    · simp [h1, h2, toBitsBE_eq_natToBits]
+
+/-- ECI header (7.4.2) + byte segment + terminated tail: the bytes come back labelled with the registered
+    character set of the ECI assignment number, whatever `guessCharset` would have said -/
+theorem parse_byte_eci_stream (reg : Registry) (ver : Nat) (hint : Hint) (val : Nat) (hval : val < 900)
+    (e : Entry) (hl : lookupValue reg val = some e)
+    (bs : List Nat) (hb : ∀ b ∈ bs, b < 256) (hlen : bs.length < 2 ^ countWidth 2 ver)
+    (tail : List Bool) (ht : Terminated tail) :
+    parseStream reg (natToBits 4 7 ++ (QRRef.eciDesignator val ++
+      (segment 4 (countWidth 2 ver) bs.length (packBytes bs) ++ tail))) ver hint =
+      .ok ⟨[.text (.named e.name) bs], [bs], -1, -1, 2⟩ := by
+  unfold parseStream
+  rw [eciDesignator_eq]
+  obtain ⟨f, hf⟩ : ∃ f, (natToBits 4 7 ++ (encodeECIValue (if val < 128 then 1 else if val < 16384 then 2 else 3) val ++
+      (segment 4 (countWidth 2 ver) bs.length (packBytes bs) ++ tail))).length + 1 = f + 1 + 1 + 1 := by
+    generalize encodeECIValue _ val ++ _ = rest
+    refine ⟨(natToBits 4 7 ++ rest).length - 2, ?_⟩
+    rw [List.length_append, natToBits_length]
+    omega
+  rw [hf, Gzx.Properties.C15.parseLoop_eci reg ver hint (f + 1 + 1) {} _ val _ (by
+    by_cases h1 : val < 128
+    · simp [h1]
+    · by_cases h2 : val < 16384
+      · simp [h1, h2]
+      · simp [h1, h2]; omega), hl]
+  simp only [hval, if_true]
+  rw [bits_byte_inv_eci reg ver hint (f + 1) _ e rfl bs hb hlen tail, parseLoop_terminated reg ver hint f _ tail ht]
+  rfl
+
+/-- **`qr_roundtrip`, byte mode with ECI header**: for every ECI assignment number `val` the decoder's registry
+    knows (entry `e`), the symbol announcing `val` returns the bytes labelled with `e`'s character set
+    (symbology modifier 2) -/
+theorem qr_roundtrip_byte_eci (T : Tables) (hT : TablesConform T) (hint : Hint) (v : Nat) (h1 : 1 ≤ v) (h40 : v ≤ 40)
+    (ec : QRRef.EC) (mask : Nat) (hm : mask < 8) (val : Nat) (hval : val < 900) (e : Entry)
+    (hl : lookupValue T.eci val = some e) (bs : List Nat) (hb : ∀ b ∈ bs, b < 256)
+    (hfit : QRRef.fitsBits v ec .byte (QRRef.headerBits (some val) false .byte).length
+      (QRRef.bitsOfBytes bs).length = true) :
+    decode T rsQR hint (refSymbol v ec mask
+        (QRRef.payloadBits v (QRRef.headerBits (some val) false .byte) .byte bs.length (QRRef.bitsOfBytes bs))) =
+      .ok ⟨⟨[.text (.named e.name) bs], [bs], -1, -1, 2⟩, toDecEC ec, v,
+        QRRef.dataCodewordsOf v ec (QRRef.headerBits (some val) false .byte) .byte bs.length (QRRef.bitsOfBytes bs),
+        false⟩ := by
+  have hk := (countBits_eq v).2.2.1
+  have hf : _ ≤ _ := of_decide_eq_true hfit
+  have hcount : bs.length < 2 ^ QRRef.countBits .byte v := by
+    have hc := (cap_facts v h1 h40 ec).2.2.1
+    rw [QRRef.bitsOfBytes_length] at hf
+    generalize 2 ^ QRRef.countBits .byte v = P at hc ⊢
+    omega
+  apply qr_roundtrip_bits T hT hint v h1 h40 ec mask hm
+  · rw [payload_length]; exact hf
+  · intro tail ht
+    have : QRRef.payloadBits v (QRRef.headerBits (some val) false .byte) .byte bs.length (QRRef.bitsOfBytes bs) ++ tail =
+        natToBits 4 7 ++ (QRRef.eciDesignator val ++
+          (segment 4 (countWidth 2 v) bs.length (packBytes bs) ++ tail)) := by
+      unfold QRRef.payloadBits QRRef.headerBits segment
+      simp only [Bool.false_eq_true, if_false, List.append_nil, List.append_assoc, toBitsBE_eq_natToBits, hk,
+        bitsOfBytes_eq]
+      rfl
+    rw [this]
+    exact parse_byte_eci_stream T.eci v hint val hval e hl bs hb (by rw [← hk]; exact hcount) tail ht
 
 end Gzx.Properties.C01
